@@ -69,7 +69,9 @@ type Module struct {
 
 // Step is one action of the harness between registration and the end.
 type Step struct {
-	// Op: start | enable | disable | manage | launch | waitfinish | poststop | shutdown | sleep | sigstorm (US = attempts)
+	// Op: start | enable | disable | manage | launch | relaunch | waitfinish | poststop | shutdown (US = further concurrent
+	// callers) | sleep | sigstorm (US = attempts) | straddle (microtasks of US microseconds on modules that are not
+	// online) | waitstraddle
 	Op   string   `json:"op"`
 	Mods []string `json:"mods,omitempty"`
 	US   int      `json:"us,omitempty"`
